@@ -257,6 +257,33 @@ struct Unpin : Cmd {
   void show(std::ostream &os) const override { os << "Unpin(" << t << ")"; }
 };
 
+// the refresh idiom: assign a newly created guard over the live one
+struct Refresh : Cmd {
+  int t;
+  int via;
+  Refresh() : t(*rc::gen::inRange(0, kHelpers)), via(*rc::gen::inRange(0, 2)) {}
+  Refresh(int tt, int v) : t(tt), via(v) {}
+  void checkPreconditions(const Model &m) const override { RC_PRE(m.pinned.count(t) == 1); }
+  void apply(Model &m) const override { m.pinned[t] = m.cur; }
+  void
+  run(const Model &m, Sut &s) const override
+  {
+    s.trace += "Refresh " + std::to_string(t) + " " + std::to_string(via) + "\n";
+    size_t e = 0;
+    s.h[t]->run([&] {
+      if (via == 0) {
+        *s.guard[t] = s.mgr->CreateEpochGuard();
+      } else {
+        auto [g, l] = s.mgr->GetProtectedEpochs();
+        *s.guard[t] = std::move(g);
+      }
+      e = s.guard[t]->GetProtectedEpoch();
+    });
+    if (e != m.cur) fail(s, "a guard refreshed at epoch " + std::to_string(m.cur) + " reports " + std::to_string(e));
+  }
+  void show(std::ostream &os) const override { os << "Refresh(" << t << "," << via << ")"; }
+};
+
 struct Forward : Cmd {
   int n;
   Forward()
@@ -325,6 +352,7 @@ run_trace(const std::string &text, Stats *st_out)
       std::unique_ptr<Cmd> c;
       if (w == "Pin") c = std::make_unique<Pin>(a % std::max(1, kHelpers), b);
       else if (w == "Unpin") c = std::make_unique<Unpin>(a % std::max(1, kHelpers));
+      else if (w == "Refresh") c = std::make_unique<Refresh>(a % std::max(1, kHelpers), b);
       else if (w == "Forward") c = std::make_unique<Forward>(a);
       else if (w == "ExitAndReplace") c = std::make_unique<ExitAndReplace>(a % std::max(1, kHelpers));
       else continue;
@@ -384,7 +412,7 @@ main(int argc, char **argv)
   const bool ok = rc::check("C20: EpochManager keeps exactly the lists it needs and frees them all", [&C] {
     Model m0;
     Sut sut;
-    rc::state::check(m0, sut, rc::state::gen::execOneOfWithArgs<Pin, Unpin, Forward, Forward, ExitAndReplace>());
+    rc::state::check(m0, sut, rc::state::gen::execOneOfWithArgs<Pin, Unpin, Refresh, Forward, Forward, ExitAndReplace>());
     std::string err;
     if (sut.teardown(&err) != 0) fail(sut, err);
     C.evaluations++;
